@@ -18,11 +18,11 @@ assert rc == 0, out
 ran = []
 try:
     demo = os.path.join(src, "demo_%s.py" % m)
-    rc0, out0 = sh("cd %s && /venv/bin/python %s" % (wt, demo), timeout=900)
+    rc0, out0 = sh("cd %s && PYTHONPATH=%s /venv/bin/python %s" % (wt, wt, demo), timeout=900)
     ran.append("demo on unchanged tree: exit %d" % rc0)
     rc, out = sh("git -C %s apply %s/%s.diff" % (wt, src, m))
     assert rc == 0, "patch does not apply: " + out
-    rc1, out1 = sh("cd %s && /venv/bin/python %s" % (wt, demo), timeout=900)
+    rc1, out1 = sh("cd %s && PYTHONPATH=%s /venv/bin/python %s" % (wt, wt, demo), timeout=900)
     ran.append("demo with change: exit %d" % rc1)
     rcb, outb = sh("python3 /verif/tools/baseline_check.py %s" % wt, timeout=3000)
     ran.append("existing suite with change: " + outb.strip().split("\n")[-1] if rcb == 0 else "existing suite: " + outb[-500:])
